@@ -289,6 +289,22 @@ func (u *Unit) typeTag(t types.Type) Term {
 	}
 	n := len(u.tags) + 1
 	u.tags[key] = n
+	// errors.Is / errors.As look through a value only if its dynamic type has an Unwrap, Is
+	// or As method: a static fact about the type, stated per tag
+	u.sc.declareFun("tag_unwrappable", []string{SInt}, SBool)
+	if len(u.tags) == 1 {
+		u.axioms = append(u.axioms, "(not (tag_unwrappable 0))")
+	}
+	ms := types.NewMethodSet(t)
+	has := false
+	for _, m := range []string{"Unwrap", "Is", "As"} {
+		if ms.Lookup(nil, m) != nil {
+			has = true
+		}
+	}
+	if _, isIface := t.Underlying().(*types.Interface); !has && !isIface {
+		u.axioms = append(u.axioms, fmt.Sprintf("(not (tag_unwrappable %d))", n))
+	}
 	return intConst(int64(n))
 }
 
